@@ -4,15 +4,14 @@ CONSTANTS
   MovieTs <- Three
   StartPos <- Zero
   FtypLen = 4
-  Confs <- Confs1
+  Confs <- Confs2
   Alphabet <- AlphaSmall
-  MaxSamples = 4
-  MaxRejects = 1
+  MaxSamples = 3
+  MaxRejects = 0
   FixEmptyChunk = TRUE
   FixStss = TRUE
   FixTkhd = TRUE
-  FixFlushOrder = TRUE
-  MaxFaults = 0
+  FixFlushOrder = FALSE
+  MaxFaults = 2
 INVARIANTS NoPanic OutputWellFormed OutputDecodes EmitCase
-PROPERTY RejectsInvisible
 CHECK_DEADLOCK FALSE
